@@ -422,7 +422,8 @@ macro_rules! field_bisim {
         let d: Dims = $d;
         let l = <D as Subject<$f>>::layout(d);
         let xs = alpha_alphabet::<$f>(&l, &[2.0, -0.5], 0);
-        let ys = alpha_alphabet::<$f>(&l, &[1.5, -3.0], l.nslots());
+        // the second operand also takes the real parts of the first: ties decide min / max / clamp
+        let ys = alpha_alphabet::<$f>(&l, &[1.5, -3.0, 2.0, -0.5], l.nslots());
         type M = (&'static str, fn(D, D) -> D);
         let methods: Vec<M> = vec![
             ("powf", |a, b| ComplexField::powf(a, b)),
